@@ -1191,5 +1191,18 @@ func main() {
 	for i := 0; i < nseg; i++ {
 		spawnColCase(100000+i, rs.Uint64(), work, true, func(in *ColInstance) { gen.Emit(in) })
 	}
+	// fault-injection cases (injected I/O errors and stops instead of process kills)
+	nfault := 0
+	if len(os.Args) > 4 {
+		nfault, _ = strconv.Atoi(os.Args[4])
+	}
+	if nfault > 0 {
+		rec.Uninstall()
+		fc := installFaultFS()
+		rf := gen.FromEnv(30003)
+		for i := 0; i < nfault; i++ {
+			runFaultCase(i, rf.Fork(), work, fc, quick, func(in *FaultInstance) { gen.Emit(in) })
+		}
+	}
 	fmt.Fprintln(os.Stderr, "c03 done")
 }
